@@ -25,10 +25,10 @@ func insideExact(vs []v2.Vec, p v2.Vec) bool {
 	px, py := rat(p.X), rat(p.Y)
 	for i := 0; i < n; i++ {
 		a, b := vs[i], vs[(i+1)%n]
-		ay, by := rat(a.Y), rat(b.Y)
-		if (ay.Cmp(py) > 0) == (by.Cmp(py) > 0) {
+		if (a.Y > p.Y) == (b.Y > p.Y) { // comparisons of float64 values are exact
 			continue
 		}
+		ay, by := rat(a.Y), rat(b.Y)
 		// x of the crossing: ax + (py-ay)*(bx-ax)/(by-ay)
 		t := rdiv(rsub(py, ay), rsub(by, ay))
 		x := radd(rat(a.X), rmul(t, rsub(rat(b.X), rat(a.X))))
